@@ -9,6 +9,10 @@ compilation-path model (lean/MakoModel/Paths8/Model.lean) is parameterised by:
                                     - the `generate_magic_comment=` keyword passed to `_compile` by `_compile_text` and
                                       by `_compile_module_file`;
 * `magicNumber`                     - codegen.MAGIC_NUMBER;
+* `declsSorted`, `localsSnapshotSorted`, `codeBlockNamesSorted`, `conflictMessagesSorted`
+                                    - whether the three sets codegen prints (to_write, argument_declared, the declared
+                                      identifiers of a <% %> block) and the names of the NameConflictError messages are
+                                      walked through sorted() (then the generated module does not depend on PYTHONHASHSEED);
 * `headerFormats`                   - the format strings of the `self.printer.writeline(...)` calls of
                                       `_GenerateRenderMethod.write_toplevel`, in source order, up to and including the
                                       `_exports` line (a bare name argument, as in `writeline(imp)`, is recorded as
@@ -102,6 +106,56 @@ def _writeline_formats(fn):
     return out
 
 
+def _is_sorted_call(node):
+    return isinstance(node, ast.Call) and isinstance(node.func, ast.Name) and node.func.id == "sorted" and len(node.args) == 1
+
+
+def _iter_of(fn, what, pred):
+    """the iterable expression of the unique for-loop / comprehension of `fn` whose iterable (possibly wrapped in
+    sorted()) satisfies `pred`"""
+    hits = []
+    for n in ast.walk(fn):
+        its = []
+        if isinstance(n, ast.For):
+            its = [n.iter]
+        elif isinstance(n, (ast.ListComp, ast.GeneratorExp, ast.SetComp)):
+            its = [g.iter for g in n.generators]
+        for it in its:
+            inner = it.args[0] if _is_sorted_call(it) else it
+            if pred(inner):
+                hits.append(it)
+    if len(hits) != 1:
+        raise RegenError("%s: expected exactly one iteration, found %d" % (what, len(hits)))
+    return hits[0]
+
+
+def _set_orders(tc):
+    """is each of the three printed sets walked through sorted()?"""
+    gcls = find_class(tc, "_GenerateRenderMethod", CODEGEN)
+    wvd = find_func(gcls.body, "write_variable_declares", CODEGEN)
+    wrc = find_func(gcls.body, "write_render_callable", CODEGEN)
+    vc = find_func(gcls.body, "visitCode", CODEGEN)
+    a = _iter_of(wvd, "write_variable_declares: loop over to_write", lambda e: isinstance(e, ast.Name) and e.id == "to_write")
+    b = _iter_of(wrc, "write_render_callable: __M_locals keyword list", lambda e: _dotted(e) == "self.identifiers.argument_declared")
+    c = _iter_of(vc, "visitCode: __M_locals.update name list",
+                 lambda e: isinstance(e, ast.Call) and _dotted(e.func) == "node.declared_identifiers")
+    return _is_sorted_call(a), _is_sorted_call(b), _is_sorted_call(c)
+
+
+def _conflict_sorted(tree, rel):
+    """every NameConflictError message that joins `illegal_names` joins sorted(illegal_names)?"""
+    res = []
+    for n in ast.walk(tree):
+        if isinstance(n, ast.Call) and isinstance(n.func, ast.Attribute) and n.func.attr == "join" and len(n.args) == 1:
+            a = n.args[0]
+            inner = a.args[0] if _is_sorted_call(a) else a
+            if isinstance(inner, ast.Name) and inner.id == "illegal_names":
+                res.append(_is_sorted_call(a))
+    if not res:
+        raise RegenError("%s: no ', '.join(illegal_names) found" % rel)
+    return all(res)
+
+
 @group("Paths8")
 def gen(repo) -> str:
     tt = parse(repo, TEMPLATE)
@@ -138,7 +192,10 @@ def gen(repo) -> str:
         raise RegenError("write_toplevel: no `_exports` line")
     last = max(i for i, f in enumerate(fmts) if f.startswith("_exports"))
     fmts = fmts[: last + 1]
-    out = [HEADER % ("mako/template.py, mako/codegen.py (tools/regen_paths8.py)"),
+    d_sorted, l_sorted, c_sorted = _set_orders(tc)
+    m_sorted = _conflict_sorted(tc, CODEGEN) and _conflict_sorted(parse(repo, "mako/runtime.py"), "mako/runtime.py")
+    b = lambda x: "true" if x else "false"      # noqa: E731
+    out = [HEADER % ("mako/template.py, mako/codegen.py, mako/runtime.py (tools/regen_paths8.py)"),
            "namespace MakoModel.Generated.Paths8", "",
            "/-- `re.sub(<pattern>, <repl>, …)` computing `module_id` in `Template.__init__` (uri and filename branch) and in",
            "    `ModuleTemplate.__init__` -/",
@@ -151,6 +208,14 @@ def gen(repo) -> str:
            "def magicCommentModulePath : Bool := %s" % ("true" if magic_mod else "false"), "",
            "/-- `codegen.MAGIC_NUMBER` -/",
            "def magicNumber : Nat := %d" % magic, "",
+           "/-- `write_variable_declares`: `for ident in sorted(to_write)` (false: the set is walked in iteration order) -/",
+           "def declsSorted : Bool := %s" % b(d_sorted),
+           "/-- `write_render_callable`: `__M_locals = __M_dict_builtin(...)` over `sorted(argument_declared)` -/",
+           "def localsSnapshotSorted : Bool := %s" % b(l_sorted),
+           "/-- `visitCode`: `for __M_key in [...]` over `sorted(node.declared_identifiers())` -/",
+           "def codeBlockNamesSorted : Bool := %s" % b(c_sorted),
+           "/-- both `NameConflictError` messages join `sorted(illegal_names)` -/",
+           "def conflictMessagesSorted : Bool := %s" % b(m_sorted), "",
            "/-- format strings of the `printer.writeline` calls of `write_toplevel`, in source order, up to `_exports` -/",
            "def headerFormats : List String := [",
            ",\n".join("  " + lean_string(f) for f in fmts),
